@@ -567,6 +567,9 @@ pub enum Strategy {
     Pct(u8),
     /// run each thread to completion in index order (sequential twin)
     RoundRobin,
+    /// keep the running thread running; when it cannot run, the lowest runnable index
+    /// (the fallback behind an explicit, minimised decision list)
+    Stay,
     /// no baton at all: the simulated threads are plain threads and somebody else (Miri) owns
     /// the schedule
     Free,
